@@ -15,7 +15,10 @@ impl Utf8Accum {
         // Plain and stupid utf-8 validation
         // Bytes are supposed to be human input so it's okay to be not blazing fast
 
-        if byte >= 0xF8 {
+        if byte >= 0xF5 || byte == 0xC0 || byte == 0xC1 {
+            // these octets never appear in well-formed utf-8,
+            // drop them together with any unfinished sequence
+            self.expected = 0;
             return None;
         } else if byte >= 0xF0 {
             // this is first octet of 4-byte value
@@ -34,6 +37,21 @@ impl Utf8Accum {
             self.expected = 1;
         } else if byte >= 0x80 {
             if self.expected > 0 {
+                if self.partial == 1 {
+                    // second octet has narrower range after some of first octets
+                    // (overlong encodings, surrogates and values above U+10FFFF)
+                    let (min, max) = match self.buffer[0] {
+                        0xE0 => (0xA0, 0xBF),
+                        0xED => (0x80, 0x9F),
+                        0xF0 => (0x90, 0xBF),
+                        0xF4 => (0x80, 0x8F),
+                        _ => (0x80, 0xBF),
+                    };
+                    if byte < min || byte > max {
+                        self.expected = 0;
+                        return None;
+                    }
+                }
                 // this is one of other octets of multi-byte value
                 self.buffer[self.partial as usize] = byte;
                 self.partial += 1;
